@@ -71,7 +71,7 @@ func (d *driver) streamOps(o *object, s sonic.FileDescriptor) {
 	}
 	if !udp {
 		o.parkW = func(cb func()) {
-			setSmallBuffers(fd, o.peer)
+			// default buffer sizes: tiny windows would bring in silly-window avoidance and 200 ms probe timers
 			fill(fd)
 			s.AsyncWrite(big[:1024], func(error, int) { cb() })
 		}
@@ -127,7 +127,9 @@ func (d *driver) fileOps(o *object, f sonic.File) {
 
 func (d *driver) timerOps(o *object, t *sonic.Timer) {
 	o.parkR = func(cb func()) {
-		must(t.ScheduleOnce(15*time.Millisecond, cb))
+		if err := t.ScheduleOnce(15*time.Millisecond, cb); err != nil {
+			cb() // not accepted: nothing is in flight
+		}
 	}
 	o.fireR = func() {}
 }
@@ -194,6 +196,9 @@ func (d *driver) fire(c Cmd) {
 		_, _ = d.ioc.PollOne()
 		if atomic.LoadInt32(done) == 0 {
 			time.Sleep(100 * time.Microsecond)
+			if c.Dir == "w" {
+				fire() // what was queued behind the peer's full buffer has moved up: drain again
+			}
 		}
 	}
 	ok := int(atomic.LoadInt32(done))
